@@ -1,12 +1,16 @@
 CFG = {
     "jobs": lambda tier: [
         J("scaled", "c05"),
+        J("scaled", "c05-blocks"),
+        J("scaled", "witness --only C05"),
     ],
     "rule": "scaled constants: generated archives as for C02 (12 quick / 60 thorough, 4 layer combinations, authenticated and "
             "unauthenticated recovery); for each archive EVERY cut point from the end of the header to the full length, in "
             "increasing order: no panic, no file shrinks when one more byte is given, without compression every content byte "
             "present in the usable part is recovered, the intact archive is recovered completely with EndOfOriginalArchiveData; "
-            "non-trivial = the archive has content; distinct = distinct (archive, mode)",
+            "non-trivial = the archive has content; distinct = distinct (archive, mode); plus 160 (quick) / 1200 (thorough) undamaged "
+            "compressed (and compressed+encrypted) archives of 300-3000 bytes in 1-12 blocks, entropy {runs, text, random}, levels {0,1,5,9,11}, "
+            "repaired from memory in both modes and from sources returning 1, 2, 3 or 7 bytes per read: complete recovery and EndOfOriginalArchiveData",
     "exhaustive": {"quick": False, "thorough": False},
     "explanation": "theorems (props/C05.v): on the uncut stream the loop reports EndOfOriginalArchiveData, nothing unfinished, every "
                    "file complete; for n <= m the content recovered under every name from the first n bytes is a prefix of the "
